@@ -3,7 +3,7 @@ from copy import copy
 from datetime import datetime
 from functools import wraps
 import glob
-from inspect import signature, ismethod
+from inspect import signature
 import os
 import pickle
 import warnings
@@ -186,10 +186,9 @@ class FileHandler:
         """
         if self.info is not None:
             # Some functions do not accept additional key word arguments (via
-            # kwargs). And if they are methods, they accept an additional
+            # kwargs). The signature of a bound method does not contain its
             # "self" or "class" parameter.
-            number_args = 1 + int(ismethod(self.info))
-            if len(signature(self.info).parameters) > number_args:
+            if len(signature(self.info).parameters) > 1:
                 return self.info(filename, **kwargs)
             else:
                 return self.info(filename)
@@ -215,10 +214,9 @@ class FileHandler:
         """
         if self.reader is not None:
             # Some functions do not accept additional key word arguments (via
-            # kwargs). And if they are methods, they accept an additional
+            # kwargs). The signature of a bound method does not contain its
             # "self" or "class" parameter.
-            number_args = 1 + int(ismethod(self.reader))
-            if len(signature(self.reader).parameters) > number_args:
+            if len(signature(self.reader).parameters) > 1:
                 return self.reader(filename, **kwargs)
             else:
                 return self.reader(filename)
